@@ -135,7 +135,7 @@ func TestC02(t *testing.T) {
 	rec.Rule("case = one seeded sequential history of 60 connect/subscribe/unsubscribe/publish/link requests by 1-4 scripted clients against a real broker.Service " +
 		"(emitter matcher 80%, mqtt 20%), every request awaited to its terminal reply, every publish followed by draining all clients and comparing with the reference model; " +
 		"non-trivial = >=3 accepted publishes with a non-empty expected receiver set, >=1 failing request and >=1 unsubscribe of a held filter; distinct = hash of the request list")
-	n := vk.N(160, 6000)
+	n := vk.N(400, 8000)
 	for ci := 0; ci < n; ci++ {
 		if vk.Mine(ci) {
 			runC02(rec, ci)
@@ -160,6 +160,26 @@ func runC02(rec *vk.Rec, ci int) {
 	kRead := b.MustKey("#/", Perms("r"))
 	kWrite := b.MustKey("#/", Perms("w"))
 	kGarbage := strings.Repeat("A", 31) + "B"
+	// keys whose target is one first level only (a/#/, b/#/, ...): used in place of the root key for half of the valid requests
+	// on that level, and on ANOTHER level for requests that must be refused
+	narrow := map[string]string{}
+	for _, l := range c02Levels {
+		narrow[l] = b.MustKey(l+"/#/", Perms("rw"))
+	}
+	keyFor := func(lv []string) string {
+		if k, ok := narrow[lv[0]]; ok && r.Chance(50) {
+			return k
+		}
+		return kAll
+	}
+	keyNotFor := func(lv []string) string {
+		for {
+			l := c02Levels[r.Intn(len(c02Levels))]
+			if l != lv[0] {
+				return narrow[l]
+			}
+		}
+	}
 	nc := r.Range(1, 4)
 	var cs []*c02Client
 	var steps []c02Step
@@ -325,7 +345,7 @@ func runC02(rec *vk.Rec, ci int) {
 			case mode < 78:
 				c.ever[topic] = lv
 				steps = append(steps, c02Step{Op: "sub", Client: i, Arg: topic})
-				rc, between, err := c.cl.Subscribe(kAll + "/" + topic)
+				rc, between, err := c.cl.Subscribe(keyFor(lv) + "/" + topic)
 				if err != nil {
 					fail("no-reply", "subscribe: "+err.Error(), c)
 					break
@@ -339,7 +359,15 @@ func runC02(rec *vk.Rec, ci int) {
 				}
 				c.subs[topic] = lv
 				rec.Inc("subscribes")
-			case mode < 85:
+			case mode < 82:
+				steps = append(steps, c02Step{Op: "sub-key-of-another-target", Client: i, Arg: topic, Expect: "401"})
+				rc, btw, err := c.cl.Subscribe(keyNotFor(lv) + "/" + topic)
+				if err != nil || rc != 0x80 {
+					fail("bad-subscribe-accepted", fmt.Sprintf("subscribe to %s with a key issued for another channel: rc=%#x err=%v", topic, rc, err), c)
+					break
+				}
+				expectErrIn(btw, 401, "subscribe with a key issued for another channel")
+			case mode < 86:
 				steps = append(steps, c02Step{Op: "sub-writeonly-key", Client: i, Arg: topic, Expect: "401"})
 				rc, btw, err := c.cl.Subscribe(kWrite + "/" + topic)
 				if err != nil || rc != 0x80 {
@@ -347,7 +375,7 @@ func runC02(rec *vk.Rec, ci int) {
 					break
 				}
 				expectErrIn(btw, 401, "subscribe with write-only key")
-			case mode < 92:
+			case mode < 93:
 				steps = append(steps, c02Step{Op: "sub-garbage-key", Client: i, Arg: topic, Expect: "401"})
 				rc, btw, err := c.cl.Subscribe(kGarbage + "/" + topic)
 				if err != nil || rc != 0x80 {
@@ -436,7 +464,7 @@ func runC02(rec *vk.Rec, ci int) {
 			switch {
 			case mode < 60:
 				me0 := r.Chance(30)
-				full := kAll + "/" + topic
+				full := keyFor(lv) + "/" + topic
 				if me0 {
 					full += "?me=0"
 				}
@@ -462,7 +490,15 @@ func runC02(rec *vk.Rec, ci int) {
 				}
 				rec.Inc("publishes_via_link")
 				checkPublish(i, tl, payload, c.linkMe0[nm])
-			case mode < 80:
+			case mode < 77:
+				steps = append(steps, c02Step{Op: "pub-key-of-another-target", Client: i, Arg: topic, Expect: "401"})
+				if _, err := c.cl.Publish(keyNotFor(lv)+"/"+topic, []byte(payload), false); err != nil {
+					fail("no-reply", "publish: "+err.Error(), c)
+					break
+				}
+				expectErr(c, 401, "publish with a key issued for another channel")
+				checkNothing(cs, fail)
+			case mode < 81:
 				steps = append(steps, c02Step{Op: "pub-readonly-key", Client: i, Arg: topic, Expect: "401"})
 				if _, err := c.cl.Publish(kRead+"/"+topic, []byte(payload), false); err != nil {
 					fail("no-reply", "publish: "+err.Error(), c)
